@@ -198,7 +198,7 @@ def o3_mirror_task(chk, prog, nmsgs, fault):
     ob = chk.begin(name, 'the task MirroredClient::start spawns (real coroutine: bb8 checkout, select! over exit signal / mirror replies / request channel, '
                    'Server::send) fed %d requests with symbolic bytes; faults: %s. Every connection to the mirror must carry a concatenation of WHOLE '
                    'requests, in order, each at most once; a request cut short may only be the last thing ever written on its connection' %
-                   (nmsgs, {'none': 'none', 'write-error': 'any write to the mirror may fail (solver\'s choice)',
+                   (nmsgs, {'none': 'none', 'answers': 'none; the mirror ANSWERS every request (an ordinary result, BEGIN -> in transaction, SET -> session state: solver\'s choice)', 'write-error': 'any write to the mirror may fail (solver\'s choice)',
                             'timeout': 'any tokio timeout on the path may elapse after the mirror has taken only part of the bytes (solver\'s choice of where)'}[fault]),
                    {'requests': nmsgs, 'fault': fault})
     st_fn = [f for n, f in prog.funcs.items() if re.search(r'mirrors::<impl at [^>]*>::start$', n)]
@@ -211,7 +211,11 @@ def o3_mirror_task(chk, prog, nmsgs, fault):
     from checks.c07 import mk_addr
     from mirsym.models.io import poll_pending, poll_ready
 
+    found = []
+
     def harness(ip_):
+        if found:
+            return
         ip_.overrides[:] = base
         msgs = []
         for k in range(nmsgs):
@@ -220,9 +224,22 @@ def o3_mirror_task(chk, prog, nmsgs, fault):
         conns = []              # [{'stream', 'server', 'cell', 'held'}]
         state = {'next': 0, 'spawned': None, 'gets': 0}
 
+        def answer(ip2, st, data):
+            # a live mirror answers every request it has received completely: an ordinary result, BEGIN (the session is now inside a
+            # transaction) or SET (session state changed) -- solver's choice; its replies are read and discarded by the task
+            is_client = any(len(data) == len(m_) and ip2.model_for(z3.Not(z3.And(*[a.z() == b.z() for a, b in zip(data, m_)]))) is None for m_ in msgs)
+            # (whatever the pooler sends on its own is answered plainly: it is reported anyway)
+            kind = (1 + ip2.choose(2, 'mirror_reply')) if is_client else 0
+            tag = [b'SELECT 1\0', b'BEGIN\0', b'SET\0'][kind]
+            status = b'T' if kind == 1 else b'I'
+            for code, body in ((b'C', tag), (b'Z', status)):
+                st.inbound.extend([BV(8, x) for x in code + (len(body) + 4).to_bytes(4, 'big') + body])
+
         def new_conn():
             st = StreamV([], 'mirror%d' % len(conns), fail_writes=(fault == 'write-error'))
-            st.eof_pending = True            # the mirror sends nothing: reads wait
+            st.eof_pending = True            # a read past what the mirror has sent waits
+            if fault == 'answers':
+                st.on_write = answer
             srv = mk_server(ip_, prog, st, address=mk_addr(ip_, prog, 0, 1))
             c_ = {'stream': st, 'server': srv, 'cell': Cell(srv, 'mirror_server%d' % len(conns)), 'held': False, 'discarded': False}
             conns.append(c_)
@@ -354,10 +371,11 @@ def o3_mirror_task(chk, prog, nmsgs, fault):
             if any(getattr(w, 'partial', False) for w in calls[:-1]):
                 problems.append('connection %d: a request was cut short and the connection was used again afterwards' % ci)
         for what in problems[:1]:
+            found.append(1)
             m = ip_.model_for()
             chk.report(ob, 'C20/O3/mirror-stream', 'the mirror task sends a mirror something that is not a sequence of whole requests: %s (streams: %s)' %
                        (what, [bytes(m.eval(b.z(), True).as_long() for b in c_['stream'].out).hex() for c_ in conns]), {},
-                       {'commands': [{'op': 'mirror_task_slow'}], 'expect': ['c20_mirror_task']})
+                       {'commands': [{'op': 'mirror_task_slow', 'mode': 'answers' if fault == 'answers' else 'slow'}], 'expect': ['c20_mirror_task']})
         if len(ob.samples) < 2:
             ob.samples.append({'connections': len(conns), 'bytes_per_connection': [len(c_['stream'].out) for c_ in conns]})
     ip.explore(harness, max_paths=4000)
@@ -388,7 +406,7 @@ def main(chk):
             tasks.append((o1_send, (prog, nm, nb)))
     for ns, nm in ((1, 1), (2, 1), (2, 2)) + (((3, 2),) if chk.thorough else ()):
         tasks.append((o2_mapping, (prog, ns, nm)))
-    for nmsg, fault in ((2, 'none'), (2, 'write-error'), (2, 'timeout')) + (((3, 'write-error'), (3, 'timeout')) if chk.thorough else ()):
+    for nmsg, fault in ((2, 'none'), (2, 'answers'), (2, 'write-error'), (2, 'timeout')) + (((3, 'write-error'), (3, 'timeout')) if chk.thorough else ()):
         tasks.append((o3_mirror_task, (prog, nmsg, fault)))
     chk.parallel(_dispatch, tasks)
 
